@@ -333,6 +333,25 @@ func rulesScanErrFor(c *Ctx, r *Report, f *ssa.Function) {
 		r.check(!bad, "SC1", fname(f), "Scan", c.pos(call.Pos()), "when Scan returns false, Err() of the same scanner is consulted before every exit", "a path from `Scan() == false` reaches a return without consulting Err()")
 	})
 	r.floor("SC1", n, 1, "Scan call sites")
+	// SC-LIMIT: the scanner's token limit is never set below bufio's default (64 KiB): rows padded with any amount
+	// of whitespace, long comment lines and wide alphabets are read
+	var low []string
+	for _, g := range c.moduleFuncs() {
+		if funcPkgPath(g) != funcPkgPath(f) {
+			continue
+		}
+		instrs(g, func(in ssa.Instruction) {
+			cl, ok := in.(*ssa.Call)
+			if !ok || !methIs(cl.Call.StaticCallee(), "bufio", "Scanner", "Buffer") || len(cl.Call.Args) != 3 {
+				return
+			}
+			if k, ok := cInt(constVal(cl.Call.Args[2])); !ok || k < 64*1024 {
+				low = append(low, c.pos(cl.Pos()))
+			}
+		})
+	}
+	r.check(len(low) == 0, "SC-LIMIT", fname(f), "token limit not lowered", c.pos(f.Pos()), "no Scanner.Buffer call sets a token limit below bufio's default of 64 KiB (none lowers it)",
+		fmt.Sprintf("Scanner.Buffer sets a token limit that is not a constant of at least 64 KiB at %v: lines the default scanner reads (long comments, heavily padded rows, wide alphabets) fail with 'token too long'", low))
 }
 
 func rulesSymmetrical(c *Ctx, r *Report, f *ssa.Function) {
